@@ -19,3 +19,43 @@ pub fn cmd_gen(par_file: &str, args: &[String]) -> Result<()> {
     println!("PVGEN {out}");
     Ok(())
 }
+
+/// `pv builder <grammar.par> <outdir> <UserType> <module> [boxed] [range] [trim] [norec] [k=N]`
+/// — the path a user's build.rs takes: parol::build::Builder ... generate_parser().
+pub fn cmd_builder(par_file: &str, args: &[String]) -> Result<()> {
+    let outdir = &args[0];
+    let utype = &args[1];
+    let module = &args[2];
+    let has = |f: &str| args.iter().any(|a| a == f);
+    let k = args.iter().find_map(|a| a.strip_prefix("k=").and_then(|x| x.parse().ok())).unwrap_or(5usize);
+    let r = std::panic::catch_unwind(|| {
+        let mut b = parol::build::Builder::with_explicit_output_dir(outdir);
+        b.grammar_file(par_file)
+            .parser_output_file(format!("{module}_parser.rs"))
+            .actions_output_file(format!("{module}_trait.rs"))
+            .expanded_grammar_output_file(format!("{module}-exp.par"))
+            .user_type_name(utype)
+            .user_trait_module_name(module);
+        let _ = b.max_lookahead(k);
+        if has("boxed") {
+            b.minimize_boxed_types();
+        }
+        if has("range") {
+            b.range();
+        }
+        if has("trim") {
+            b.trim_parse_tree();
+        }
+        if has("norec") {
+            b.disable_recovery();
+        }
+        b.generate_parser()
+    });
+    let out = match r {
+        Ok(Ok(())) => json!({"status": "ok"}),
+        Ok(Err(e)) => json!({"status": "rejected", "error": format!("{e:#}")}),
+        Err(_) => json!({"status": "panic"}),
+    };
+    println!("PVGEN {out}");
+    Ok(())
+}
